@@ -265,8 +265,42 @@ def main():
 
     common.import_repo()
 
+    # optional second gate of a property module (C10: effect model regenerated from the source); it runs in a child
+    # process while the cases are generated and judged
+    extra_handle = None
+    if hasattr(mod, "extra_gate_start") and gate["build_ok"]:
+        try:
+            extra_handle = mod.extra_gate_start()
+        except Exception:  # noqa: BLE001
+            extra_handle = None
+
+    def finish_extra():
+        if extra_handle is None:
+            return None
+        try:
+            ex = mod.extra_gate_finish(extra_handle)
+        except Exception as e:  # noqa: BLE001
+            return {"notes": [f"EFFECT-MODEL-PROBLEM {type(e).__name__}: {e}"], "evidence": {"status": "not evaluated"}}
+        gate["problems"] += ex.get("problems", [])
+        gate["theorems"].update(ex.get("theorems", {}))
+        gate["obligations"] += ex.get("obligations", 0)
+        gate["discharged"] += ex.get("discharged", 0)
+        for n_ in ex.get("notes", []):
+            print(n_)
+        return ex
+
     if a.replay:
         j = json.loads(Path(a.replay).read_text())
+        if j.get("kind") == "PROOF":
+            # a broken proof obligation has no input to replay: evaluate the gates again on the current tree
+            finish_extra()
+            for p_ in gate["problems"][:8]:
+                print(f"LEAN-GATE {p_}")
+            if gate["problems"]:
+                print(f"VIOLATION property={pid} replay={a.replay} no-failing-input-found")
+                sys.exit(1)
+            print("replay: no issue on the current tree")
+            sys.exit(0)
         r = process_inputs(pid, [("replay", j["inp"])])
         bad = [i for i in r["issues"]]
         for i in bad:
@@ -300,6 +334,8 @@ def main():
         print("HARNESS-ERROR: worker crashed")
         print(crashes[0])
         sys.exit(2)
+
+    extra = finish_extra()
 
     # classify
     known_printed = {}
@@ -387,6 +423,8 @@ def main():
         "wall_s": round(wall, 2),
         "violations": violations,
     }
+    if extra is not None and extra.get("evidence") is not None:
+        ev["coverage"]["effect_model"] = extra["evidence"]
     # evidence/ describes runs against /repo itself; a run against another tree (SA_REPO: seeded / harmless
     # self-validation in a scratch worktree) leaves it alone and writes under .work/
     ev_dir = common.VERIF / "evidence" if common.REPO == Path("/repo").resolve() else common.WORK / "evidence_other_tree"
